@@ -514,7 +514,8 @@ fn actual_view(bytes: &[u8]) -> Result<(Vec<(String, Rtype, u16)>, Vec<(u8, Stri
             Some((size, opts, v.full_rcode, version, dnssec_ok))
         }
     };
-    Ok((qs, rs, opt, counts, v.rcode.to_int() as u16))
+    let flags = (v.aa as u8) | (v.tc as u8) << 1 | (v.rd as u8) << 2 | (v.ra as u8) << 3 | (v.ad as u8) << 4 | (v.cd as u8) << 5;
+    Ok((qs, rs, opt, counts, v.rcode.to_int() as u16 | (flags as u16) << 8))
 }
 
 /// Execute `ops` on a builder over a sink of capacity `cap`; check after
@@ -772,9 +773,9 @@ fn execute<T: Composer>(pool: &[String], ops: &[Op], ctl: &SinkCtl, stream: bool
                     sim::violation(P, "parse-back", format!("unparseable/{}", label), format!("after op #{} {:?} (failed={}, cap {}, limit {:?}): {}", i, op, failed, cap, limit_at, e));
                     return None;
                 }
-                Ok((aq, ar, aopt, counts, hdr_rcode)) => {
-                    let v = dns::view(msg).expect("parsed above");
-                    let got_flags = (v.aa as u8) | (v.tc as u8) << 1 | (v.rd as u8) << 2 | (v.ra as u8) << 3 | (v.ad as u8) << 4 | (v.cd as u8) << 5;
+                Ok((aq, ar, aopt, counts, hdr)) => {
+                    // (low octet: the header's rcode; high octet: its flags)
+                    let (hdr_rcode, got_flags) = (hdr & 0xff, (hdr >> 8) as u8);
                     if got_flags != model.flags {
                         sim::violation(P, if failed { "failed-push-atomic" } else { "parse-back" }, format!("header-flags/{}", label), format!("after op #{} {:?} (failed={}): the header flags (AA TC RD RA AD CD) read {:06b}, last set {:06b}", i, op, failed, got_flags, model.flags));
                         return None;
@@ -925,7 +926,7 @@ fn gen_ops(pool: &[String], size_class: u64) -> Vec<Op> {
             }
         }
     }
-    if size_class == 5 && sim::chance("ops.count_wrap", 1, 8) {
+    if size_class == 5 && sim::chance("ops.count_wrap", 1, 24) {
         // An unbounded target and more records of one section than a 16-bit
         // count can say: 65535 go in, the next one is refused.
         ops.clear();
@@ -1083,7 +1084,7 @@ fn run(tier: Tier) {
     // points only: around the end, where the count is about to wrap.)
     if ops.iter().any(|o| matches!(o, Op::PushMany(..))) {
         let mut n_points = 0u64;
-        for k in [total.saturating_sub(1), total, total.saturating_sub(16), total / 2] {
+        for k in [total.saturating_sub(1), total / 2] {
             if sim::stopped() || exec!(k, None).is_none() {
                 return;
             }
